@@ -5,11 +5,14 @@ from worlds.engine_common import simulate
 
 ID = "C04"
 LEVEL = "exploration"
-QUICK_RUNS = 3000
+QUICK_RUNS = 9000
 THOROUGH_SECONDS = 600
 RULE_TEXT = ("Generated workflows ending by result, step failure (with/without retries), cancel_run at a tape-chosen "
              "instant, workflow timeout, plus engine-side failures (retry predicate raising, non-Event return, custom "
-             "BaseException in a step); a stream_events(expose_internal=True) consumer runs alongside. Non-trivial: the "
+             "BaseException in a step), steps that collect_events / wait_for_event before returning, progress loops that write to the "
+             "stream and yield repeatedly, user-written (unhashable dataclass) retry policies; a stream_events(expose_internal=True) "
+             "consumer runs alongside. Late stream writes are attributed: written before or after the control loop was handed the "
+             "run-ending completion (task-done observation). Non-trivial: the "
              "run ended while >=1 other step body was still executing or >=1 stream write was in flight; distinct = "
              "(outcome kind, abstract trace shape).")
 COMPONENTS = {"real": ["workflows.* engine incl. WorkflowHandler.stream_events and BasicRuntime publish queue"],
@@ -22,7 +25,8 @@ LEVEL_TEXT = ("Seeded exploration over outcome kinds and end-of-run races; oracl
 LEVEL_NOTE = "Trusted: simulator loop, recording adapter decorator."
 
 CFG = {"driver": "result", "p_retry": 40, "p_fail": 30, "p_cancel": 25, "timeouts": [None, None, 2, 4, 7],
-       "p_pred_raises": 6, "p_nonevent": 4, "p_baseexc": 2, "p_stream": 50, "p_ret_none": 10, "fan_max": 3}
+       "p_pred_raises": 6, "p_nonevent": 4, "p_baseexc": 2, "p_stream": 50, "p_ret_none": 10, "fan_max": 3,
+       "p_collect": 45, "p_wait": 12, "p_ticker": 35, "p_user_policy": 30, "wait_timeouts": [None, 4, 10]}
 
 TERMINAL = {"StopEvent", "Stop1", "WorkflowFailedEvent", "WorkflowCancelledEvent", "WorkflowTimedOutEvent"}
 
@@ -53,9 +57,18 @@ def check(world, spec, outcome) -> None:
             last_seq, last_ev = terms[-1]
             if last_ev not in want:
                 world.violate("C04.terminal-kind", f"outcome {okind} but terminal event is {last_ev}", last_seq, outcome=okind, got=last_ev)
-            later = [f["ev"] for seq, f in pubs if seq > terms[0][0]]
+            later = [(seq, f) for seq, f in pubs if seq > terms[0][0]]
             if later:
-                world.violate("C04.after-terminal", f"published after terminal event: {later[:4]}", terms[0][0], what=later[0], outcome=okind)
+                # root cause: was the late event written by a body that was still allowed to run AFTER the control loop had
+                # learned that the run is over (the stop-returning worker's completion was handed to the loop / the ending
+                # tick was processed)?  A write made before that instant whose fire-and-forget task merely lost the race is
+                # the recorded defect; a body that keeps executing past that instant is something else.
+                end_seen = _end_observed_seq(recs, terms[0][0], okind)
+                emit_seq = next((s_ for s_, _, k, f in recs if k == "emit" and f.get("via") == "stream" and f.get("uid") == later[0][1].get("uid")), None)
+                late_body = bool(end_seen is not None and emit_seq is not None and emit_seq > end_seen)
+                world.violate("C04.after-terminal", f"published after terminal event: {[f['ev'] for _, f in later][:4]}"
+                              + (" — written by a step body that was still running after the loop had seen the run-ending completion" if late_body else ""),
+                              terms[0][0], what=later[0][1]["ev"], outcome=okind, written_after_end_observed=late_body)
         if not outcome.get("consumer_done"):
             world.violate("C04.stream-hang", f"stream_events() consumer still blocked at quiescence after run ended ({okind})",
                           outcome=okind, engine_side=armc, terminal_published=bool(terms))
@@ -76,6 +89,25 @@ def check(world, spec, outcome) -> None:
         world._okind = "not-finished"
         world._nt = False
         world.probe("outcome:not-finished")
+
+
+def _end_observed_seq(recs, term_seq, okind):
+    """seq of the record at which the control loop learned the run is over: for a result, the task-done record of the worker
+    whose StopEvent result tick precedes the terminal publish; otherwise the ending tick itself"""
+    last_tick = None
+    for seq, _, k, f in recs:
+        if seq >= term_seq:
+            break
+        if k == "tick":
+            last_tick = (seq, f)
+    if last_tick is None:
+        return None
+    seq, f = last_tick
+    if f.get("tick") != "step_result":
+        return seq
+    key = f"{f.get('step')}:{f.get('worker')}"
+    done = [s_ for s_, _, k, g in recs if k == "task-done" and g.get("key") == key and s_ < seq]
+    return done[-1] if done else seq
 
 
 def run(tape):
